@@ -1,6 +1,8 @@
 package pipe
 
 import (
+	"sort"
+	"path/filepath"
 	"encoding/json"
 	"fmt"
 	"os"
@@ -176,7 +178,7 @@ var prefixNoLineRe = regexp.MustCompile(`^([^\s:]+\.(?:graphqls?|gql|go)): `)
 
 func RunC18(tier string, seed int64, outDir string, replay string) (*core.Result, error) {
 	res := core.NewResult("C18", tier, seed)
-	res.Rule = "random valid programs with ONE positioned fault out of 15 classes (validation, lexing, every kind of @genqlient directive error on fields/operations/fragments, anonymous and keyword names, keyword variables, struct option misuse, unbound scalar) placed in a .graphql file or a raw/interpreted `# @genqlient` literal of a random layout at random line offsets; the true file and line are known from the rendering; non-trivial = Generate failed; distinct by project text"
+	res.Rule = "random valid programs with ONE positioned fault out of 15 classes (validation, lexing, every kind of @genqlient directive error on fields/operations/fragments, anonymous and keyword names, keyword variables, struct option misuse, unbound scalar) placed in a .graphql file or a raw/interpreted `# @genqlient` literal of a random layout at random line offsets; the true file and line are known from the rendering; every third located fault again through a genqlient.yaml in a sub-directory (all operation files outside the config's directory: the reported path must be relative to the config, ../ops/...); non-trivial = Generate failed; distinct by project text"
 	per := 5
 	if tier == "thorough" {
 		per = 150
@@ -278,6 +280,65 @@ func RunC18(tier string, seed int64, outDir string, replay string) (*core.Result
 			}
 			res.Fail(core.Failure{Case: cid, Class: class,
 				What: fmt.Sprintf("fault %s at %s (%s): message starts with %q: %.160s", c.Fault, want, kind, prefix, msg), Replay: c})
+		}
+		// "... the path of the file containing it, RELATIVE TO THE CONFIG": the same project read
+		// through a genqlient.yaml that lives in a sub-directory, so that every operation file is
+		// outside the config's directory (../ops/...)
+		if i%3 == 0 && prefix == want && c.Fault != "unbound-scalar" && len(c.Proj.Cfg.Bindings) == 0 {
+			root := filepath.Join(dir, "cfgleg")
+			os.RemoveAll(root)
+			for name, content := range prog.Files {
+				full := filepath.Join(root, name)
+				_ = os.MkdirAll(filepath.Dir(full), 0o755)
+				_ = os.WriteFile(full, []byte(content), 0o644)
+			}
+			var y strings.Builder
+			y.WriteString("schema: ../schema.graphql\noperations:\n")
+			for _, g := range prog.Ops {
+				y.WriteString("- ../" + g + "\n")
+			}
+			y.WriteString("generated: generated.go\npackage: client\n")
+			var scalars []string
+			for _, t := range c.Schema.Types {
+				if t.Kind == "SCALAR" {
+					scalars = append(scalars, t.Name)
+				}
+			}
+			sort.Strings(scalars)
+			if len(scalars) > 0 {
+				y.WriteString("bindings:\n")
+				for _, sc := range scalars {
+					y.WriteString("  " + sc + ":\n    type: string\n")
+				}
+			}
+			_ = os.MkdirAll(filepath.Join(root, "client"), 0o755)
+			_ = os.WriteFile(filepath.Join(root, "client", "genqlient.yaml"), []byte(y.String()), 0o644)
+			_ = os.WriteFile(filepath.Join(root, "go.mod"), []byte("module example.com/cfgleg\n\ngo 1.22\n"), 0o644)
+			// the config named from the project root, or by its absolute path: "relative to the
+			// config" must not depend on how the config was named or where genqlient was started
+			so := runSpelling(root, "", "client/genqlient.yaml")
+			if i%2 == 1 {
+				so = runSpelling(root, "client", filepath.Join(root, "client", "genqlient.yaml"))
+			}
+			res.Dist("config-leg:" + so.Class)
+			if so.Class != "ok" && so.Class != "PANIC" && so.Class != "harness" && so.Class != "config-error" {
+				p2 := ""
+				if m := prefixRe.FindStringSubmatch(so.Err); m != nil {
+					p2 = m[1] + ":" + m[2]
+				} else if m := prefixNoLineRe.FindStringSubmatch(so.Err); m != nil {
+					p2 = m[1]
+				}
+				injected2 := false
+				for _, frag := range faultMsg[c.Fault] {
+					if strings.Contains(so.Err, frag) {
+						injected2 = true
+					}
+				}
+				if injected2 && p2 != "../"+want {
+					res.Fail(core.Failure{Case: cid + "/config-leg", Class: "C18/not-relative-to-the-config/" + c.Fault,
+						What: fmt.Sprintf("fault %s, config in client/, operations in ../ops: message starts with %q, want %q: %.200s", c.Fault, p2, "../"+want, so.Err), Replay: c})
+				}
+			}
 		}
 		terms = append(terms, fmt.Sprintf("{| e_id := %d; e_file := %s; e_lit := %s; e_line := %d%%N; e_true_line := %d%%N; e_obs := %s |}",
 			i, coqfmt.Str(loc.File), lit, inner, trueLine, coqfmt.Str(prefix)))
